@@ -31,6 +31,56 @@ Proof.
   rewrite mass_bind; [exact Hg|]. intros x. rewrite mass_bind; [exact IH|intros; apply mass_ret].
 Qed.
 
+(* the n elements are independent draws: the probability of a given collection is the product of the
+   probabilities of its elements (for any decidable equality on the elements) *)
+Fixpoint list_eqb {A} (eqb : A -> A -> bool) (a b : list A) : bool :=
+  match a, b with
+  | [], [] => true
+  | x :: a', y :: b' => eqb x y && list_eqb eqb a' b'
+  | _, _ => false
+  end.
+Fixpoint product_law {A} (eqb : A -> A -> bool) (g : dist A) (c : list A) : Q :=
+  match c with
+  | [] => 1
+  | x :: c' => prob g (eqb x) * product_law eqb g c'
+  end.
+
+Lemma prob_false A (d : dist A) : prob d (fun _ => false) == 0.
+Proof. induction d as [|[x q] d IH]; cbn; [reflexivity|rewrite IH; ring]. Qed.
+
+Lemma prob_bind_ret_cons A (d : dist (list A)) (x : A) P :
+  prob (dbind d (fun r => dret (x :: r))) P == prob d (fun r => P (x :: r)).
+Proof.
+  rewrite prob_bind. rewrite prob_as_expect. apply expect_ext. intros r. rewrite prob_ret. reflexivity.
+Qed.
+
+Theorem collection_iid A (eqb : A -> A -> bool) n (g : dist A) : forall c, length c = n ->
+  prob (collection n g) (list_eqb eqb c) == product_law eqb g c.
+Proof.
+  induction n as [|n IH]; intros c Hc; cbn [collection].
+  - destruct c; [|discriminate]. rewrite prob_ret. reflexivity.
+  - destruct c as [|x c']; [discriminate|]. injection Hc as Hc. cbn [product_law].
+    rewrite prob_bind.
+    rewrite (expect_ext _ _ _ (fun y => (if eqb x y then 1 else 0) * product_law eqb g c')).
+    2:{ intros y. rewrite prob_bind_ret_cons. cbn [list_eqb].
+        destruct (eqb x y); cbn [andb]; [rewrite (IH c' Hc); ring|rewrite prob_false; ring]. }
+    rewrite (expect_ext _ _ _ (fun y => product_law eqb g c' * (if eqb x y then 1 else 0))) by (intros; ring).
+    rewrite expect_scale, <- prob_as_expect. ring.
+Qed.
+
+(* a collection of a different length has probability 0 *)
+Theorem collection_wrong_length A (eqb : A -> A -> bool) n (g : dist A) : forall c, length c <> n ->
+  prob (collection n g) (list_eqb eqb c) == 0.
+Proof.
+  induction n as [|n IH]; intros c Hc; cbn [collection].
+  - destruct c; [contradiction|]. rewrite prob_ret. reflexivity.
+  - rewrite prob_bind. rewrite (expect_ext _ _ _ (fun _ => 0)).
+    + rewrite expect_const. ring.
+    + intros y. rewrite prob_bind_ret_cons. destruct c as [|x c']; cbn [list_eqb].
+      * apply prob_false.
+      * destruct (eqb x y); cbn [andb]; [apply IH; cbn in Hc; lia|apply prob_false].
+Qed.
+
 (* random bitstrings: n independent bits, each set with probability p *)
 Definition random_bits (p : Q) (n : nat) : dist (list bool) := collection n (bernoulli p).
 Fixpoint bits_law_of (p : Q) (n : nat) (c : list bool) : Q :=
